@@ -808,6 +808,10 @@ func readv(mem api.Memory, iovs uint32, iovsCount uint32, reader func(buf []byte
 	if !ok {
 		return 0, experimentalsys.EFAULT
 	}
+	// iovsBuf is a view of guest memory and so are the buffers the iovecs name.
+	// Read the iovecs from a copy: otherwise data read into a buffer that
+	// overlaps a later iovec decides where the next read goes.
+	iovsBuf = append([]byte(nil), iovsBuf...)
 
 	for iovsPos := uint32(0); iovsPos < iovsStop; iovsPos += 8 {
 		offset := le.Uint32(iovsBuf[iovsPos:])
